@@ -143,6 +143,85 @@ func genReplica(c *Ctx) error {
 			c.Nontrivial(fmt.Sprintf("%d%s", ps, sig.String()))
 		}
 	}
+	// --- a primary that is demoted at every point of an in-flight local transaction ---------------
+	nDem := 24
+	if c.Tier == "thorough" {
+		nDem = 400
+	}
+	for h := 0; h < nDem; h++ {
+		ps := pick(r, []int{512, 4096})
+		walTx := h%2 == 0
+		// count the operations of the transaction first (dry run), then demote before operation k
+		for pass := 0; pass < 2; pass++ {
+			_ = pass
+		}
+		cs := c.Begin()
+		nops, demoteAt := 0, -1
+		var p *pager
+		demoted := false
+		var do func(op string) string
+		do = func(op string) string {
+			if demoteAt >= 0 && nops == demoteAt && !demoted {
+				demoted = true
+				cs.Do("demote")
+			}
+			nops++
+			return cs.Do(op)
+		}
+		p = newPager(r, ps, func(op string) string { return do(op) })
+		p.walBig = r.Bool()
+		do("open primary")
+		do("createdb")
+		p.journalTx(p.randomShape(4), 0, 0)
+		p.journalTx(p.randomShape(3), 0, 0)
+		if walTx {
+			p.wal = true
+			p.journalTx(txShape{newN: len(p.img), pages: map[int]bool{1: true}, commit: true}, 0, 0)
+			p.walTx(p.randomShape(3), false, false, false)
+		}
+		cs.Do(p.refLine())
+		cs.Do("state")
+		cs.Do("ltx")
+		cs.Do("raw")
+		// the in-flight transaction: demote after a random number of its operations
+		start := nops
+		demoteAt = start + r.Range(1, 14)
+		savedImg, savedTok := p.img, p.tok
+		refused := false
+		inner := do
+		do = func(op string) string {
+			obs := inner(op)
+			isCommit := op == "jrm" || op == "jtr" || op == "jw 0 z28" || strings.HasSuffix(op, " WRITE") && strings.HasPrefix(op, "unlock")
+			if (isCommit && obs != "ok") || obs == "readonly" {
+				refused = true // a write or the commit step came after write authority was lost
+			}
+			return obs
+		}
+		if walTx {
+			p.walTx(p.randomShape(3), false, false, false)
+		} else {
+			p.journalMode = pick(r, []string{"DELETE", "TRUNCATE", "PERSIST"})
+			p.journalTx(p.randomShape(3), 0, 0)
+		}
+		if !demoted {
+			cs.Do("demote") // after the transaction completed
+		}
+		if refused {
+			p.img, p.tok = savedImg, savedTok // nothing was published: SQLite's view after a restart is the old image
+			c.Count("demote.refused")
+		} else {
+			c.Count("demote.committed")
+		}
+		cs.Do("ref-restart") // the next observations are about what a restart recovers
+		cs.Do(p.refLine())
+		cs.Do("reopen replica")
+		cs.Do("state")
+		cs.Do("ltx")
+		cs.Do("raw")
+		cs.End()
+		c.Count("demote-history")
+		c.Nontrivial(fmt.Sprintf("demote|%d|%v|%d", ps, walTx, demoteAt-start))
+	}
 	return nil
 }
 
